@@ -47,6 +47,7 @@ class AsyncSink : public Sink {
 
     void append(const char *str, size_t len);
     void append(char ch);
+    void appendFormat(const char *fmt, ...) __attribute__((format(printf, 2, 3)));
 
     virtual void endline() = 0;
     virtual void flush() = 0;
